@@ -6,7 +6,7 @@ import vlib
 from vlib import to_tangelo_gate, cyc_to_complex, frac_str
 
 CLAIM = {
- "text": "Proof (Lean 4), partial: model = exact <psi|H|psi> computed two ways (statevector route: overlap with the Pauli-circuit image; frequency route: measurement-basis rotation from the table regenerated from /repo, then the parity rule). Proved: the parity rule's sample values are +-1 and the one-term variance over any normalised frequency list equals 1 - E^2 and is >= 0 when |E| <= 1; the expectation is linear in the coefficients and the complex split (real part + i * imaginary part evaluated separately) recombines to the value of the complex operator; the basis rotations RY(-pi/2) and RX(pi/2) conjugate Z into X and Y (2x2 identities); an identity term contributes its coefficient. NOT proved in Lean: equality of the two routes for all states (needs sums over the 2^n basis states of a rotated state); it is checked exactly by the model on every generated case (both routes are evaluated in Q(zeta_16) and compared) and every route of the real code is compared with that value. Finite shots: only that estimates lie within 6 reported standard errors and that variance/standard error follow the exact distribution.",
+ "text": "Proof (Lean 4), partial: model = exact <psi|H|psi> computed two ways (statevector route: overlap with the Pauli-circuit image; frequency route: measurement-basis rotation from the table regenerated from /repo, then the parity rule). Proved: the parity rule's sample values are +-1 and the one-term variance over any normalised frequency list equals 1 - E^2; the expectation is linear in the coefficients and the complex split (real part + i * imaginary part evaluated separately) recombines to the value of the complex operator; every row of the measurement-basis table regenerated from /repo rotates its Pauli letter into Z (kernel computation in Q(zeta_16) over the whole table); an identity term contributes its coefficient. NOT proved in Lean: equality of the two routes for all states (needs sums over the 2^n basis states of a rotated state); it is checked exactly by the model on every generated case (both routes are evaluated in Q(zeta_16) and compared) and every route of the real code is compared with that value. Finite shots: only that estimates lie within 6 reported standard errors and that variance/standard error follow the exact distribution.",
  "note": "Trusted: Lean kernel + standard axioms; cirq/sympy simulators; numpy; scipy sampler. Coefficients are dyadic rationals so that floats are exact; tolerance 1e-8.",
  "technique": "Lean 4 theorems (variance identity, linearity/complex split, basis-rotation identities) + exact route-by-route correspondence against the real backends"}
 
